@@ -207,9 +207,8 @@ def run(repo: Repo, tier: str, res: CheckResult, seed: int = 0) -> None:
     res.coverage["hole_kind_histogram"] = dict(sorted(kinds_hist.items()))
     res.assumptions = list(ASSUMPTIONS)
 
-    if tier == "thorough":
-        from .. import genprog
-        genprog.c19_checks(repo, tier, res, seed)
+    from .. import genprog
+    genprog.c19_checks(repo, tier, res, seed)
 
 
 def _iterates_fixed_tuple(m, node: ast.Call) -> bool:
